@@ -275,7 +275,8 @@ func (s *secSym) resultBytes(res Value, n int) ([]BV, string) {
 
 func cdiv(a, b int) int { return (a + b - 1) / b }
 
-var neaLengthsQuick = []int{0, 1, 7, 8, 9, 31, 32, 33, 40, 63, 64, 65}
+// every residue modulo 8, the octet positions inside a 32-bit keystream word, the word borders
+var neaLengthsQuick = []int{0, 1, 2, 3, 4, 5, 6, 7, 8, 9, 12, 13, 15, 16, 17, 20, 21, 23, 24, 25, 31, 32, 33, 40, 45, 48, 63, 64, 65}
 
 func neaLengths(tier string) []int {
 	if tier != "thorough" {
